@@ -167,9 +167,7 @@ def minimise(exe, tape_path, tier, env_extra, budget, fuzz=False, timeout=40):
     if fails([tape]) < 0:
         shutil.rmtree(work, ignore_errors=True)
         return tape_path, False
-    # strip trailing zeros (an exhausted tape reads as zeros)
-    while tape and tape[-1] == 0:
-        tape.pop()
+    # (trailing zeros are NOT stripped blindly: generators may consult exhausted(), so every shortening is verified by a replay)
     chunk = max(1, len(tape) // 2)
     while chunk >= 1 and used[0] < budget and time.time() < t_end:
         i = 0
@@ -201,8 +199,6 @@ def minimise(exe, tape_path, tier, env_extra, budget, fuzz=False, timeout=40):
                 tape = cands[k]
                 continue
         j += 16
-    while tape and tape[-1] == 0:
-        tape.pop()
     outp = tape_path + '.min'
     write_tape(outp, tape)
     shutil.rmtree(work, ignore_errors=True)
